@@ -123,10 +123,16 @@ func c15Bounds(c *Ctx) {
 		c.R.Unknown(rule, rule+"/compiler-report", "-", err.Error())
 		return
 	}
+	// the total folds of the header codec decide their own sites
+	if c.headerLayoutOK("C01.anchor") {
+		c01Encoder(c)
+		c01Decoder(c, "C01.decode-table", c.fn("C01.decode-table", ws, "ReadHeader"), false)
+		c01Decoder(c, "C01.decode-table", c.method("C01.decode-table", wsutil, "Reader", "readHeader"), true)
+	}
 	reach := c.reachableFromPeerInput()
 	c.R.Note("compiler reports %d unproven bounds checks in the three packages; %d functions are reachable from the decoding entry points", len(sites), len(reach))
 	seen := map[string]bool{}
-	inReach, outReach := 0, 0
+	inReach, outReach, byFold := 0, 0, 0
 	for _, s := range sites {
 		if !reach[s.Func] {
 			outReach++
@@ -150,7 +156,22 @@ func c15Bounds(c *Ctx) {
 				continue
 			}
 		}
-		if why, ok := reviewedBounds[k]; ok {
+		if why, ok := c.decidedByFold(s); ok {
+			c.R.OK(rule, rule+"/"+k, pos, why)
+			byFold++
+			continue
+		}
+		why, ok := reviewedBounds[k]
+		if !ok && s.Callee == "" {
+			// a helper split out of a reviewed function inherits its caller's entries
+			for _, o := range c.ownerChain(s.Func)[1:] {
+				if w, has := reviewedBounds[o+": "+s.Expr]; has {
+					why, ok = w+" (site moved into helper "+s.Func+", whose only caller is "+o+")", true
+					break
+				}
+			}
+		}
+		if ok {
 			if strings.Contains(why, "guarded by") || strings.Contains(why, "reached only when") || strings.Contains(why, "loop") || strings.Contains(why, "!= -1") || strings.Contains(why, "ranges over") {
 				if g, found := c.siteHasDominatingGuard(s); found && !g {
 					c.R.Fail(rule, rule+"/"+k, pos, "reviewed site `"+s.Expr+"` in "+s.Func+" relied on a guard ("+why+") but no branch on its index operands dominates it any more")
@@ -163,7 +184,7 @@ func c15Bounds(c *Ctx) {
 		}
 	}
 	c.R.Sites += len(sites)
-	c.R.Sample(map[string]any{"rule": rule, "compiler_unproven_sites": len(sites), "in_peer_reachable_functions": inReach, "outside": outReach})
+	c.R.Sample(map[string]any{"rule": rule, "compiler_unproven_sites": len(sites), "in_peer_reachable_functions": inReach, "outside": outReach, "decided_by_total_fold": byFold})
 }
 
 // reviewedPanics: function -> why its explicit panic cannot be triggered by peer input.
@@ -209,7 +230,17 @@ func c15Panics(c *Ctx) {
 		}
 		n += count
 		key := rule + "/" + name
-		if why, ok := reviewedPanics[name]; ok {
+		why, ok := reviewedPanics[name]
+		if !ok {
+			for _, o := range c.ownerChain(name)[1:] {
+				if w, has := reviewedPanics[o]; has {
+					why, ok = w+" (moved into helper "+name+", whose only caller is "+o+")", true
+					key = rule + "/" + o
+					break
+				}
+			}
+		}
+		if ok {
 			c.R.OK(rule, key, c.P.Pos(pos), fmt.Sprintf("%d panic site(s), reviewed: %s", count, why))
 		} else {
 			c.R.Fail(rule, key, c.P.Pos(pos), fmt.Sprintf("%s contains %d explicit panic(s) that are not in the reviewed table: a panic reachable from network input takes the process down", name, count))
@@ -238,7 +269,8 @@ func c15Alloc(c *Ctx) {
 				if !derivesFromHeaderLength(ms.Len, 0) {
 					continue
 				}
-				key := rule + "/" + astFuncName(fn)
+				chain := c.ownerChain(astFuncName(fn))
+				key := rule + "/" + chain[len(chain)-1]
 				if boundedBy(ms.Len, b) {
 					c.R.OK(rule, key, c.P.Pos(ms.Pos()), "size is compared with a limit before the allocation")
 				} else {
@@ -325,6 +357,18 @@ var reviewedLoops = map[string]string{
 	"ws.(handshakeHeader).WriteTo": "counted loop over a 2-element array",
 }
 
+func reviewedLoopFor(c *Ctx, name string) (string, bool) {
+	for i, o := range c.ownerChain(name) {
+		if w, ok := reviewedLoops[o]; ok {
+			if i > 0 {
+				w += " (loop moved into helper " + name + ", whose only caller is " + o + ")"
+			}
+			return w, true
+		}
+	}
+	return "", false
+}
+
 func c15Loops(c *Ctx) {
 	const rule = "C15.loop-progress"
 	c.R.Rule(rule, 10, "every loop reachable from peer input has a recognised progress argument")
@@ -358,7 +402,7 @@ func c15Loops(c *Ctx) {
 		pos := c.P.FuncPos(fn)
 		if len(unknown) == 0 {
 			c.R.OK(rule, key, pos, strings.Join(ks, ", "))
-		} else if why, ok := reviewedLoops[name]; ok {
+		} else if why, ok := reviewedLoopFor(c, name); ok {
 			c.R.OK(rule, key, pos, strings.Join(ks, ", ")+"; reviewed: "+why)
 		} else {
 			c.R.Fail(rule, key, pos, fmt.Sprintf("loop at %s has no recognised progress argument (not a range or counted loop, not in the reviewed table): a peer could keep it spinning", strings.Join(unknown, ", ")))
